@@ -35,7 +35,8 @@ SCONF = {
     'brk+':  dict(SBASE, Alpha=[97, 32, 10, 133, 8232], MaxLen=5, Kinds=['item', 'root0', 'mval', 'fitem'], Unis=[True]),
     'b4+':   dict(SBASE, MaxLen=6, Bests=[4, 9], Widths=[9, 19], Depths=[1, 3], Kinds=['item', 'mval', 'fitem']),
     'lb+':   dict(SBASE, MaxLen=5, Kinds=['item', 'root0', 'mval', 'fitem', 'bkey'], LBs=['r', 'rn'], Depths=[1, 3]),
-    'marks+': dict(SBASE, Alpha=[97, 32, 10, 900001, 900002], MaxLen=8, Kinds=ALLK, Depths=[1, 3]),
+    'marks+': dict(SBASE, Alpha=[97, 32, 10, 900001, 900002], MaxLen=7, Kinds=['root0', 'root3', 'item', 'mval', 'bkey', 'fitem', 'fkey'],
+                   Depths=[1, 3]),
 }
 STIERS = {'quick': ['wsl', 'full', 'esc', 'b4', 'lb', 'marks'], 'thorough': ['wsl+', 'w8+', 'full+', 'ctx+', 'esc+', 'brk+', 'b4+', 'lb+', 'marks+']}
 PAIRS = [('python', 'Dumper', 'python', 'Loader'), ('python', 'Dumper', 'libyaml', 'CLoader'),
@@ -220,7 +221,7 @@ ECONF = {
     'any':    dict(EBASE, Mode='"any"', MaxEvents=5, MaxDocs=5, SIs=['tf', 'ff'], AAs=['a1', ''], DVs=['', '2.0'], FSs=[False],
                    DTs=['', 'badh']),
     # collections as mapping keys (`? ` complex keys, written indentless after `? &a` / `? !t`), with anchors, tags, empty items
-    'keys':    dict(EBASE, MaxEvents=10, CollsAt='"key"', AAs=[], FSs=[False], CAs=['', 'a1'], CTs=['', 'local']),
+    'keys':    dict(EBASE, MaxEvents=10, CollsAt='"key"', AAs=[], FSs=[False], CAs=['', 'a1']),
     # scalars that are or begin with a document marker word, or have one at a fold point; as keys, values, items, roots
     'marks':   dict(EBASE, MaxEvents=8, Vs=['word', 'docsep', 'dashkey', 'dotkey', 'dotsfold', 'dashfold'], Widths=[5, 80], AAs=[]),
     'tagdocs': dict(EBASE, MaxEvents=8, MaxDocs=2, FSs=[], AAs=[], Vs=['word'], STs=['', 'hdl', 'local'], SIs=['tf', 'ff'],
